@@ -29,12 +29,13 @@ def classify(b, has_nested):
     added, dropped = where.get('added', {}), where.get('dropped', {})
     if set(rep['add']) - set(added) or set(rep['drop']) - set(dropped):
         return None         # could not be located: not attributable
-    ok_add = all(v == 'upstream' for v in added.values())
-    ok_drop = all(v == 'overlapping-or-adjacent-partner' for v in dropped.values())
-    if not (ok_add and ok_drop):
+    vals = list(added.values()) + list(dropped.values())
+    if not all(v in ('upstream', 'overlapping-or-adjacent-partner') for v in vals):
         return None
-    if rep['add']:
+    if any(v == 'upstream' for v in added.values()):
         return 'KF-LABEL-UPSTREAM'
+    if any(v == 'upstream' for v in dropped.values()):
+        return 'KF-LABEL-EXTRA-UPSTREAM'
     return 'KF-LABEL-PARTNER'
 
 
